@@ -253,15 +253,20 @@ def term_extras(draw):
 @st.composite
 def hash_case(draw):
     cls = draw(st.sampled_from(CLASSES))
+    fa = draw(st.sampled_from(FLOATS))
+    near = {0.3: 0.1 + 0.2, 0.1 + 0.2: 0.3, 1.0: 1 + 1e-12, 1 + 1e-12: 1.0, 0.0: -0.0, 2.5: 2.5000000000000004, 1e-12: 1.0000000000000002e-12, 1e300: 1.0000000000000002e300}
+    fb = draw(st.sampled_from([fa, near.get(fa, fa), near.get(fa, fa), draw(st.sampled_from(FLOATS))]))  # equal, a round-off neighbour, or anything
+    name_a, label_a, value_a = draw(st.sampled_from(["n1", "n2"])), draw(st.sampled_from(["L1", "L2"])), draw(st.sampled_from(["a", "b", ""]))
+    same = draw(st.booleans())  # the two sides agree on name / label / value more often than independent draws would
     return {
         "term_extra": draw(term_extras()),
         "cls": cls,
         "uuid_a": draw(st.integers(1, 3)),
         "uuid_b": draw(st.integers(1, 3)),
-        "name_a": draw(st.sampled_from(["n1", "n2"])), "name_b": draw(st.sampled_from(["n1", "n2"])),
-        "label_a": draw(st.sampled_from(["L1", "L2"])), "label_b": draw(st.sampled_from(["L1", "L2"])),
-        "value_a": draw(st.sampled_from(["a", "b", ""])), "value_b": draw(st.sampled_from(["a", "b", ""])),
-        "fa": draw(st.sampled_from(FLOATS)), "fb": draw(st.sampled_from(FLOATS)),
+        "name_a": name_a, "name_b": name_a if same else draw(st.sampled_from(["n1", "n2"])),
+        "label_a": label_a, "label_b": label_a if same else draw(st.sampled_from(["L1", "L2"])),
+        "value_a": value_a, "value_b": value_a if same else draw(st.sampled_from(["a", "b", ""])),
+        "fa": fa, "fb": fb,
         "int_b": draw(st.booleans()),
         # the same instant written with different UTC offsets (aware datetimes compare by instant); None = naive
         "tz_a": draw(st.sampled_from([None, None, 0, 1, -5])), "tz_b": draw(st.sampled_from([None, None, 0, 1, -5])),
